@@ -96,7 +96,7 @@ def run_c13(tier, seed):
 
         def part(i):
             tf = os.path.join(wd, "file%d.ndjson" % i)
-            p = subprocess.run([binp, "drive-file", str(seed * 100 + i), str(max(8, rounds // nparts)), tf],
+            p = run_harness([binp, "drive-file", str(seed * 100 + i), str(max(8, rounds // nparts)), tf],
                                stdout=subprocess.PIPE, stderr=subprocess.STDOUT, text=True, timeout=3000)
             if p.returncode != 0:
                 raise Broken("drive-file failed: " + p.stdout[-1500:])
@@ -145,7 +145,7 @@ def run_c17(tier, seed):
             core, cli = os.path.join(wd, "cc%d.ndjson" % i), os.path.join(wd, "cl%d.ndjson" % i)
             logp = os.path.join(wd, "race%d" % i)
             env = dict(os.environ, GORACE="log_path=%s halt_on_error=0 exitcode=0" % logp)
-            p = subprocess.run([binp, "drive-conc", str(seed * 100 + i), str(max(1, rounds // nparts)), core, cli],
+            p = run_harness([binp, "drive-conc", str(seed * 100 + i), str(max(1, rounds // nparts)), core, cli],
                                stdout=subprocess.PIPE, stderr=subprocess.STDOUT, text=True, env=env, timeout=3000)
             if p.returncode != 0:
                 raise Broken("drive-conc failed: " + p.stdout[-1500:])
@@ -195,7 +195,7 @@ def replay(wd, prop, rp, path):
     if rp["kind"] == "file-trace":
         binp = build_harness(wd)
         tf = os.path.join(wd, "f.ndjson")
-        p = subprocess.run([binp, "drive-file", str(rp["seed"]), "4", tf], stdout=subprocess.PIPE, stderr=subprocess.STDOUT, text=True, timeout=HARNESS_TIMEOUT)
+        p = run_harness([binp, "drive-file", str(rp["seed"]), "4", tf], stdout=subprocess.PIPE, stderr=subprocess.STDOUT, text=True, timeout=HARNESS_TIMEOUT)
         if p.returncode != 0:
             raise Broken(p.stdout[-1000:])
         ok, tot, rej = validate_traces(wd, "Trace_File", TRACE_FILE_CFG, tf, "rp")
